@@ -24,6 +24,9 @@ def run(chk):
     # escaped substrings (also inside handlers, also on cache hits)
     c01.run_instance(chk, "params-encoded", ["/a/{x}", "/{x}/{y}", "/a/{x:all}", "/a[/{x}]"], 6, 1, chars=("/", "a", "%", "2", "5"), only=PAR,
                      harness_env={"VERIF_MATCH_ENCODED": "1"})
+    # StrictLastSlash: the two spellings of a URL are different paths (different values, maybe different routes), also in the cache
+    c01.run_instance(chk, "params-strict", ["/a/{x:all}", "/a/{x}/", "/a/{x}", "/{x}/{y:rest1}"], 4, 2, chars=("/", "a", "b"), only=PAR,
+                     extra_paths=["/a/", "/a/b/", "/a/a/", "/b/a/", "/a/b/a/"], harness_env={"VERIF_MATCH_STRICT": "1"})
     # two routes with the same skeleton and variable names but different regexes, registered for different methods in
     # both orders: each keeps its own regex
     c01.run_instance(chk, "params-same-skeleton", ["/a/{x}", "/a/{x:dig}", "/a/{x:ab}", "/a[/{x}]", "/a[/{x:dig}]"], 4, 2, chars=("/", "a", "1", "b"),
